@@ -24,6 +24,21 @@ CHECKS = {
          "All reachable states up to BFS depth 7 (quick; log <= 4 entries, cache capacities 1,2) / 9 (thorough; <= 5 entries, capacities 1,2,3,8) of a model Raft log (4 entry types) with the REAL Simple/Cached readers, ShardCache and LogServer.Replicate on top; every query start index x 4 size limits checked in every state against: consecutive entries from the requested index, none beyond applied, use-snapshot / leader-behind / empty batch answers, cache transparency, at least one entry.",
          "Trusted: the 60-line model of dragonboat's ReadonlyLogReader (GetRange/Entries with size cut and at-least-one rule); compaction clears the cache atomically. Visited set keyed by the complete tuple incl. the cache's index run (hook dump).",
          "DESIGN.md section 4, C06"),
+ "C07": ("exploration",
+         "bounded exhaustive enumeration of contents (value-size orders) x MaxInMemLogSize settings x target states on real engines, through Manager.Restore, worker.recover over gRPC and backup/restore",
+         "Every content of 0..3 (quick) / 0..5 (thorough) pairs with value sizes from {0,1,40,300} in every order (+64KiB/2MiB cases) x MaxInMemLogSize from {0,600,1000,6MiB} (thorough 7 values) x absent/pre-populated target: captured by the real SnapshotServer.Stream, loaded by the real Manager.Restore; the same through real gRPC and the real replication worker.recover() on follower engines, and through backup.Backup/Restore incl. one-bit corruption of the file; point-in-time at FSM level with a write injected after every output write.",
+         "Trusted: single-node dragonboat engines on in-memory file systems; settings under which dragonboat starves proposals are excluded by construction; a missed generous deadline is inconclusive (counted), never a verdict.",
+         "DESIGN.md section 4, C07"),
+ "C16": ("exploration",
+         "bounded exhaustive enumeration of request field products through the registered codec into the real servers on a real engine, with an outcome classifier and a no-effect check",
+         "About 21k requests: the full product of per-field domains for Range/IterateRange/Put/DeleteRange, transactions with <=1 of 12 predicates and <=2 of 24 nested operations, Tables calls with hostile names on leader and follower wiring; required status class from the documented constraints; after every refused or read-only request the table list and every table's content are unchanged; handler panics and a dead worker process are violations (child process supervision).",
+         "Trusted: the classifier (written from the property text); handlers are called directly (no recovery interceptor exists, so a handler panic = process death).",
+         "DESIGN.md section 4, C16"),
+ "C18": ("exploration",
+         "bounded exhaustive enumeration of message values (all single and paired field settings per type), compressor payload pairs and stream chunkings",
+         "Every message type of the 4 proto packages: empty, every single-field setting to depth 3, every pair, everything-set; registered codec vs fresh and recycled objects and vs the standard protobuf implementation; gzip/snappy/zstd with 39 payloads in every ordered pair and 3 read granularities; snapshot files shipped with every placement of <=2 cuts and every uniform chunk size through snapshot.Writer/Reader, backup.Writer and BackupServer.Restore.",
+         "Trusted: protobuf-go's proto.Equal as equality incl. presence. Pool interleavings under a controlled scheduler are NOT explored (free-running concurrent pass only, which cannot decide).",
+         "DESIGN.md section 4, C18"),
  "C08": ("exploration",
          "bounded exhaustive enumeration of histories x formats x receiver states x interposed writes/stop signals, crash-point enumeration of installs, API-level read/install interleavings",
          "Fidelity matrix over every history of length <= 2 (quick) / <= 3 (thorough) x saver/receiver formats x fresh/stale receiver x writes between prepare and save and from inside save at every output write; stop signal at every read of recover / write of save; crash at every FS operation of histories with installs; install placed before every step of a reader program (unary read, lazy stream pulled message by message).",
